@@ -4,7 +4,7 @@
 //!
 //! Two logs:
 //!   `<out>/pos/`  `src <hex>` / `t <k>` / `c <k>.<j> <base>` / `eof`: implementation vs oracle, no model;
-//!   `<out>/`      `split` / `splitfix` / `end` / `scan` / `lc`: implementation (and oracle) vs `vmodel tokens`.
+//!   `<out>/`      `split` / `end` / `scan` / `lc`: implementation (and oracle) vs `vmodel tokens`.
 //! Numbers are lower-case hex, texts are hex of their UTF-8 bytes (`-` = empty).
 //!
 //! `--replay FILE`: every `src <hex>` line of FILE is expanded again (its `t`/`c`/`split` lines are
@@ -320,8 +320,7 @@ fn run_case(o: &mut Out, src: &str, tag: &str, rng: &mut Rng) {
                     .join(",")
             );
             let args = format!("{} {:x} {:x} {:x}", hx(run), bl, bc, base);
-            o.model.push3(format!("split {args}"), imp.clone(), "?".into());
-            o.model.push3(format!("splitfix {args}"), imp, "?".into());
+            o.model.push3(format!("split {args}"), imp, "?".into());
             o.model.count("split");
             push_scan(o, run);
         }
